@@ -34,6 +34,24 @@ fn main() {
                 }
             }
         }
+        // and for the synthesised footers (table-free v2/v3 file per footer), written next to the dump
+        if let Some(dir) = args.get(3) {
+            std::fs::create_dir_all(dir).expect("create synth dir");
+            for (i, (text, v3)) in props::c18::footers(false).into_iter().enumerate() {
+                if let Some(z) = props::c18::synth_zones(&text, v3).into_iter().find(|z| z.version != 1 && z.transitions.is_empty()) {
+                    let name = format!("synth-{}", i);
+                    std::fs::write(format!("{}/{}", dir, name), refmodel::tzif::write_tzif(&z)).expect("write synth file");
+                    for t in props::c18::probes(&z, false) {
+                        if let Some(o) = refmodel::tzif::offset_at(&z, t) {
+                            writeln!(out, "@{}\t{}\t{}", name, t, o).unwrap();
+                            n += 1;
+                        }
+                    }
+                }
+            }
+        }
+        out.flush().expect("flush dump");
+        drop(out);
         println!("dumped {} lookups", n);
         std::process::exit(0);
     }
